@@ -35,10 +35,12 @@ XNInf == BinA("div", NegA(N1), N0)
 XNZero == NegA(N0)
 Specials == {XNaN, XPInf, XNInf, XNZero, NegA(N1), NegA(N("1.5", Fin(FALSE, 3, 2))), NegA(N("0.5", Fin(FALSE, 1, 2))), NegA(N("2.5", Fin(FALSE, 5, 2)))}
 StrLeaves(u_) == {L(s) : s \in {"", "a", "12", " 12 ", "+5", "1e3", "ab cd", " a  b ", "-1.5", ".5", "5.", "abc", "a~b^", "~", "`x",
-                            "-", ".", "Infinity", "NaN", "0x10", "12abc", "\t7\n", "-0", "007", "1000000000000000000000", "0.000001"}}
+                            "-", ".", "Infinity", "NaN", "0x10", "12abc", "\t7\n", "-0", "007", "1000000000000000000000", "0.000001",
+                            \* { } @ : no-break space, form feed, em space - white space to Unicode, ordinary characters to XPath
+                            " {a{ b ", "}x}", "{{", "{12", "a@b", "1}"}}
 SmallStrs == {L(s) : s \in {"", "a", "abc", "ab cd", "a~b^", "12", " a  b "}}
 BoolLeaves == {Fn0A("true"), Fn0A("false")}
-TreeLeaves == {Rel1(n) : n \in {"vabs", "vmulti", "vm2", "vone", "vempty", "vnum", "vneg", "vtxt"}}
+TreeLeaves == {Rel1(n) : n \in {"vabs", "vmulti", "vm2", "vone", "vnil", "vempty", "vnum", "vneg", "vtxt"}}
 Leaves(u_) == NumLeaves \cup StrLeaves(0) \cup BoolLeaves \cup TreeLeaves \cup Specials
 NumLike == NumLeaves \cup Specials
 AllOps == ArithOps \cup CmpOps \cup BoolOps
@@ -143,11 +145,15 @@ UnionChains(u_) ==
        \cup {BinA(o, NegA(u), z) : o \in AllOps, u \in U, z \in Z} \cup {BinA(o, z, NegA(u)) : o \in AllOps, u \in U, z \in Z}
        \cup {BinA("|", u, x) : u \in U, x \in UnionOpnds}
        \cup {BinA(o2, BinA(o1, z, u), OpC) : o1 \in AllOps, o2 \in AllOps, u \in U, z \in {OpB}}
+\* the value of a path expression is the value the tree reports for the designated node, whatever its class
+PathValues(u_) == {Path(r, pre \o <<St(leaf)>>) : r \in {"abs", "rel", "cur"},
+                                                  pre \in {<< >>, <<St("a")>>, <<StP("a", <<Pred("k", L("x"))>>)>>, <<St("..")>>, <<St("b"), St("..")>>},
+                                                  leaf \in {"vabs", "vmulti", "vm2", "vone", "vnil", "vempty", "vnum", "vneg", "vtxt"}}
 Family(i) ==
   CASE i = 1 -> D1Bin(ArithOps)
     [] i = 2 -> D1Bin({"=", "!="})
     [] i = 3 -> D1Bin({"<", "<=", ">", ">="})
-    [] i = 4 -> D1Bin(BoolOps) \cup D1F1(0)
+    [] i = 4 -> D1Bin(BoolOps) \cup D1F1(0) \cup TreeLeaves          \* a path as the whole expression: the value the tree reported
     [] i = 5 -> D1F2(0)
     [] i = 6 -> D1F3(0) \cup D1Rx(0)
     [] i = 7 -> D2Conv(0)
@@ -163,7 +169,8 @@ Family(i) ==
     [] i = 17 -> Chain2Mixed(0)
     [] i = 18 -> LLFirst(0)
     [] i = 19 -> UnionChains(0)
-NFamilies == 19
+    [] i = 20 -> PathValues(0)
+NFamilies == 20
 \* families 9 and 10 are big and come in NChunks chunks; the others are chunk 0 only
 FamilyC(i, c, C) ==
   IF i = 9 THEN D2Bin(ArithOps, c, C) ELSE IF i = 10 THEN D2Bin(CmpOps \cup BoolOps, c, C)
